@@ -160,6 +160,28 @@ theorem reads_served_in_issue_order (E : Env) (b : Bool) (leftover : Bytes) (ops
       (· < ·) :=
   (run_order E ops (Conn.init b leftover) init_order).1
 
+/-- **a backlog of any size is kept whole.**  The honest stream of `rs` — however many records — arrives
+    before the application has read anything or attached a consumer: every record is parked, in order, none
+    is discarded; whatever the application does afterwards is covered by `delivery_exact`.  (The model's queue
+    is a list without capacity; `parked_queue_unbounded` ties that to the container the code builds.) -/
+theorem backlog_kept_whole (E : Env) (b : Bool) (rs : List Bytes) (hcount : rs.length ≤ 256 ^ 24) (hsz : SizesOK rs)
+    (hid : IdealFor E.box (senderRecordKey E b) rs)
+    (cs : List Bytes) (hcs : cs.flatten = (sendMany E (Conn.init b) rs).1.app.wire) :
+    (feed E (Conn.init (!b)) cs).app.inbound = rs ∧ (feed E (Conn.init (!b)) cs).app.delivered = [] ∧
+    (feed E (Conn.init (!b)) cs).state = .records := by
+  have h := roundtrip_core E b rs hcount hsz hid App.init cs hcs
+  have h0 : ({ Conn.init (!b) with app := App.init } : Conn) = Conn.init (!b) := rfl
+  rw [h0] at h
+  rw [h]
+  obtain ⟨_, _, _, g4⟩ := foldl_idle rs App.init rfl rfl
+  have hs := (foldl_recordReceived_spec rs App.init (by intro hc; rfl)).1
+  refine ⟨by simpa [App.init] using g4, ?_, rfl⟩
+  have g4' : (rs.foldl recordReceived App.init).inbound = rs := by simpa [App.init] using g4
+  simp only [App.surfaced, g4'] at hs
+  have : (rs.foldl recordReceived App.init).delivered ++ rs = [] ++ rs := by
+    simpa [App.init, App.delivered] using hs
+  exact List.append_cancel_right this
+
 /-- the wire side (buffer, counters, state, `_error`) after any run is that of feeding the run's bytes
     alone: no read, consumer, callback or loss report influences what is accepted -/
 theorem wire_side_independent (E : Env) (ops : List Op) (c : Conn) :
